@@ -66,7 +66,16 @@ func (s *syncStore[H]) Append(ctx context.Context, headers ...H) error {
 	//	However, Syncer has yet to be refactored to not assume those invariants and until then
 	//	this method is a shim that allows using store with old assumptions.
 	//  To be reworked by bsync.
-	if headers[0].Height() >= head.Height() {
+	// The head pointer is checked and advanced with compare-and-swap: Append is called concurrently by the
+	// sync loop, the gossip handler and Head() callers, and a caller that checked adjacency against a head
+	// loaded earlier must not move the pointer back over what another caller appended meanwhile.
+	for {
+		headPtr := s.head.Load()
+		head = *headPtr
+		if headers[0].Height() < head.Height() {
+			break
+		}
+
 		for _, h := range headers {
 			if h.Height() != head.Height()+1 {
 				return &errNonAdjacent{
@@ -78,7 +87,9 @@ func (s *syncStore[H]) Append(ctx context.Context, headers ...H) error {
 			head = h
 		}
 
-		s.head.Store(&head)
+		if s.head.CompareAndSwap(headPtr, &head) {
+			break
+		}
 	}
 
 	if err := s.Store.Append(ctx, headers...); err != nil {
